@@ -1,5 +1,6 @@
 import NbioVerif.Properties.C02
 import NbioVerif.Lemmas.SrcBridgeConn
+import NbioVerif.Lemmas.SrcBridgeLife
 #print axioms ReadPath.core_run
 #print axioms ReadPath.c02_gate
 #print axioms ReadPath.c02_no_lost_edge
@@ -19,3 +20,5 @@ import NbioVerif.Lemmas.SrcBridgeConn
 #print axioms FdTable.c02_attribution_init
 #print axioms UdpSess.c02_udp_active_session
 #print axioms ConnFull.src_masks_wellformed
+#print axioms Life.interest_wrappers
+#print axioms Life.interest_hangup
